@@ -59,8 +59,16 @@ def handle(req, joblib, MF, V):
             func = getattr(mod, "a_%d" % req["f"])
         else:
             func = getattr(mod.K("A" if req["carrier"] == "mA" else "B"), "m_%d" % req["f"])
-        mem = joblib.Memory(req["location"], compress=req["compress"], verbose=0)
+        if req.get("verbose"):
+            # joblib's progress messages must not reach the protocol channel
+            devnull = os.open(os.devnull, os.O_WRONLY)
+            os.dup2(devnull, 1)
+            sys.stdout = open(os.devnull, "w")
+        mem = joblib.Memory(req["location"], compress=req["compress"], verbose=req.get("verbose", 0))
         wrapped = mem.cache(func, ignore=list(req["jl_ignore"]))
+        if req.get("via_pickle") and req["carrier"] == "f":
+            import pickle
+            wrapped = pickle.loads(pickle.dumps(wrapped))
         args = [V.build(a, perm_seed=req["perm"]) for a in req["args"]]
         kwargs = {k: V.build(v, perm_seed=req["perm"]) for k, v in req["kwargs"].items()}
         before = len(MF.EXEC_LOG)
